@@ -177,3 +177,34 @@ VARIANTS += [
     V('C06', 'twin: inline inverse', CR, "        inv = (triplet[1], triplet[0], triplet[2])\n        final_triplets.append(inv)", "        final_triplets.append((triplet[1], triplet[0], triplet[2]))", expect='clean'),
     V('C06', 'twin: target-only as list comprehension over list', CR, "            combinations = [x for x in _combinations if args.label_column in x]", "            combinations = [pair for pair in list(_combinations) if args.label_column in pair]", expect='clean'),
 ]
+
+# ---------------------------------------------------------------- C13
+TRK = 'outrank/task_ranking.py'
+VARIANTS += [
+    V('C13', 'F9 reintroduced: bare value membership', CR, "if (column, value) not in ignored_values:", "if value not in ignored_values:"),
+    V('C13', 'retire on >=', CR, "if val > rare_value_count_upper_bound:", "if val >= rare_value_count_upper_bound:"),
+    V('C13', 'membership test dropped', CR, "            if (column, value) not in ignored_values:\n                global_storage[(column, value)] += 1", "            global_storage[(column, value)] += 1"),
+    V('C13', 'retired set rebuilt each batch', CR, "    ignored_values = IGNORED_VALUES\n", "    ignored_values = set()\n"),
+    V('C13', 'store keyed by value only', CR, "                global_storage[(column, value)] += 1", "                global_storage[value] += 1"),
+    V('C13', 'retired keys not deleted', CR, "    for key in keys_to_remove:\n        del global_storage[key]\n", ""),
+    V('C13', 'sketch re-created every batch', CR, "        if column not in GLOBAL_CARDINALITY_STORAGE:\n            GLOBAL_CARDINALITY_STORAGE[column] = HyperLogLog(HYPERLL_ERROR_BOUND)", "        GLOBAL_CARDINALITY_STORAGE[column] = HyperLogLog(HYPERLL_ERROR_BOUND)"),
+    V('C13', 'counter re-created every batch', CR, "        if column not in GLOBAL_COUNTS_STORAGE:\n            GLOBAL_COUNTS_STORAGE[column] = PrimitiveConstrainedCounter(max_unique_hist_constraint)", "        GLOBAL_COUNTS_STORAGE[column] = PrimitiveConstrainedCounter(max_unique_hist_constraint)"),
+    V('C13', 'counter fed per batch (batch_add)', CR, "        for value in column_data.values:\n            GLOBAL_COUNTS_STORAGE[column].add(value)", "        GLOBAL_COUNTS_STORAGE[column].batch_add(column_data.values)"),
+    V('C13', 'counter fed with unique values only', CR, "        for value in column_data.values:\n            GLOBAL_COUNTS_STORAGE[column].add(value)", "        for value in unique_values:\n            GLOBAL_COUNTS_STORAGE[column].add(value)"),
+    V('C13', 'sketch fed unhashed first 100 values', CR, "        for unique_value in unique_values:\n            if unique_value:", "        for unique_value in list(unique_values)[:100]:\n            if unique_value:"),
+    V('C13', 'sketch skips short values', CR, "            if unique_value:\n                GLOBAL_CARDINALITY_STORAGE", "            if len(unique_value) > 1:\n                GLOBAL_CARDINALITY_STORAGE"),
+    V('C13', 'F7 reintroduced: str to xxhash', CU, "    if isinstance(input_obj, str):\n        input_obj = input_obj.encode('utf-8')\n", ""),
+    V('C13', 'coverage without *100', CR, "            1 - (all_missing / input_dataframe.shape[0])\n        ) * 100", "            1 - (all_missing / input_dataframe.shape[0])\n        )"),
+    V('C13', 'coverage counts only first symbol', CR, "                for x in all_missing_symbols\n", "                for x in list(all_missing_symbols)[:1]\n"),
+    V('C13', 'coverage denominators columns', CR, "1 - (all_missing / input_dataframe.shape[0])", "1 - (all_missing / input_dataframe.shape[1])"),
+    V('C13', 'tail batch coverage not accumulated', CR, "        for k, v in coverage_storage.items():\n            local_coverage_object[k].append(v)\n\n        step_timing_checkpoints", "        step_timing_checkpoints"),
+    V('C13', 'annotation uses max coverage', TRK, "round((np.mean(np.array(coverage_object[feature_first]))), 1)", "round((np.max(np.array(coverage_object[feature_first]))), 1)"),
+    V('C13', 'annotation cardinality of other feature', TRK, "card_second = str(len(cardinality_object[feature_second]))", "card_second = str(len(cardinality_object[feature_first]))"),
+    V('C13', 'histogram >= n', TRK, "more_than = lambda n, ary: len(np.where(ary > n)[0])", "more_than = lambda n, ary: len(np.where(ary >= n)[0])"),
+    V('C13', 'histogram thresholds to 10^4', TRK, "for x in [0] + [1 * 10 ** x for x in range(6)]}", "for x in [0] + [1 * 10 ** x for x in range(5)]}"),
+    V('C13', 'rare table drops count 1', CU, "        namespace, value = namespace_tuple\n        out_df_rows.append([namespace, value, count])", "        namespace, value = namespace_tuple\n        if count > 1:\n            out_df_rows.append([namespace, value, count])"),
+    V('C13', 'outside writer of rare store', CR, "    bounds_storage = compute_bounds_increment(input_dataframe, numeric_column_types)\n", "    bounds_storage = compute_bounds_increment(input_dataframe, numeric_column_types)\n    GLOBAL_RARE_VALUE_STORAGE.clear()\n"),
+    V('C13', 'twin: inline bound', CR, "        if val > rare_value_count_upper_bound:", "        if val > args.rare_value_count_upper_bound:", expect='clean'),
+    V('C13', 'twin: tuple key in a local', CR, "            if (column, value) not in ignored_values:\n                global_storage[(column, value)] += 1", "            pair = (column, value)\n            if pair not in ignored_values:\n                global_storage[pair] += 1", expect='clean'),
+    V('C13', 'twin: unique() for the sketch', CR, "        unique_values = set(column_data)\n", "        unique_values = set(column_data.values)\n", expect='clean'),
+]
